@@ -97,4 +97,29 @@ CLAIMED["C13"] = {
     "note": TRUST,
 }
 
+CLAIMED["C01"] = {
+    "technique": "CFG dominance / must-pass path rules on the rollback pipeline, abstract walk over CFG paths with a tag-status domain for the rollback index, who-may-write table for the history, comparator-site recogniser",
+    "text": ("The equivalence with the sequential execution is NOT decided: it ranges over models, configurations and interleavings and hinges on "
+             "runtime values. Decided on every run are necessary structural conditions of the rollback machinery: do_rollback runs cancel -> "
+             "restore -> coast forward in that order on every path with one unmodified index and coasts forward from the position the restore "
+             "returned, re-dispatching the history entries' own fields; every index handed to do_rollback (5 producers) is 0 or one past an "
+             "untagged history entry that is not the cancelled event itself (an abstract walk over all CFG paths; undoing one valid event too "
+             "many is accepted as safe); the straggler matcher and test use the canonical order with the straggler as first operand; the history "
+             "has six writers, the processed event is appended untagged after its handler and sent messages are recorded tagged; silent "
+             "re-execution cannot emit."),
+    "note": TRUST + " These are necessary, not sufficient, conditions of C01.",
+}
+CLAIMED["C05"] = {
+    "technique": "path-condition rule (emission only with the silent flag clear), set/reset pairing on the CFG, sibling-agreement recogniser for checkpoint take/restore, per-writer conservation checks of the checkpoint-size account, edge-sensitive must-pass rule on the NULL edge of restore",
+    "text": ("Decided on every run: every emission step of ScheduleNewEvent (allocation, remote send, queue insert, both history pushes) is "
+             "reachable only with the thread-local silent flag clear, and silent_execution sets it before and resets it after the re-execution "
+             "loop on every path; the generator state is allocated by rs_malloc/rs_calloc and reached through current_lp only; checkpoint take and "
+             "restore copy the whole tree in opposite directions, walk the same tree (restore loads the saved one first), copy the same lengths to/"
+             "from the advancing cursor and record/verify arena identity; arenas unknown to the restored checkpoint are re-initialised and charged "
+             "their header on the NULL edge only; every writer of the checkpoint-size account conserves it and checkpoint_take allocates and "
+             "records exactly that amount; rollback pipeline as in C01. NOT decided: byte equality of the restored state over operation histories, "
+             "nor the buddy tree arithmetic."),
+    "note": TRUST,
+}
+
 NOT_APPLICABLE = {}
